@@ -4,8 +4,8 @@ copies the sub-agent's seeded defect /tmp/seed_<Cxx>/OUT/{mut<k>.diff,demo<k>.py
 import json, os, shutil, sys
 p, k, det = sys.argv[1], sys.argv[2], sys.argv[3]
 note = sys.argv[4] if len(sys.argv) > 4 else ""
-src = f"/tmp/seed_{p}/OUT"
-dst = f"/verif/seeded/{p}-{k}"
+src = os.environ.get("SEED_SRC", f"/tmp/seed_{p}/OUT")
+dst = f"/verif/seeded/{p}-{os.environ.get('SEED_AS', k)}"
 os.makedirs(dst, exist_ok=True)
 shutil.copy(f"{src}/mut{k}.diff", f"{dst}/patch.diff")
 shutil.copy(f"{src}/demo{k}.py", f"{dst}/demo.py")
